@@ -8,4 +8,5 @@ let () = Driver.main [
   { Driver.name = "tparams_total"; run = tparams_total_run; judge = tparams_total_judge };
   { Driver.name = "pnx"; run = pnx_run; judge = pnx_judge };
   { Driver.name = "fit"; run = fit_run; judge = fit_judge };
+  { Driver.name = "shortbits"; run = shortbits_run; judge = shortbits_judge };
 ]
